@@ -81,6 +81,7 @@ enum {
     F_SECURE_STATIC,
     F_CURSOR_EXHAUSTED,
     F_SUBBUF,
+    F_BIG_GROWTH,
     F_NFLAGS
 };
 static const char *s_flag_names[F_NFLAGS] = {
@@ -110,6 +111,7 @@ static const char *s_flag_names[F_NFLAGS] = {
     "secure_zero_on_static_storage",
     "cursor_read_to_exhaustion",
     "sub_buffer_from_advance_written",
+    "dynamic_growth_of_buffer_of_16MiB_or_more",
 };
 
 /* ------------------------------------------------------------------ state */
@@ -1087,7 +1089,7 @@ static void op_append(struct mon_rng *r) {
     mon_fp(0x800 + v);
     snap_take(0, &m->b);
     struct aws_byte_cursor before = c->c;
-    aws_reset_error();
+    mon_poison_last_error(&mon_case_rng);
     int rc;
     if (lookup) {
         rc = aws_byte_buf_append_with_lookup(&m->b, &c->c, table);
@@ -1208,7 +1210,7 @@ static void op_append_dynamic(struct mon_rng *r) {
     if (secure && pred == 1) {
         sec_arm(s_op, m->ptr, 0, m->cap);
     }
-    aws_reset_error();
+    mon_poison_last_error(&mon_case_rng);
     int rc;
     if (is_nul) {
         rc = aws_byte_buf_append_null_terminator(&m->b);
@@ -1277,7 +1279,7 @@ static void op_cat(struct mon_rng *r) {
     s_op = "cat";
     mon_fp(0xA00 + k);
     snap_take(0, &m->b);
-    aws_reset_error();
+    mon_poison_last_error(&mon_case_rng);
     int rc;
     if (k == 1) {
         rc = aws_byte_buf_cat(&m->b, 1, &s_buf[src[0]].b);
@@ -1380,7 +1382,7 @@ static void op_reserve(struct mon_rng *r) {
     mon_fp(0xB00 + v);
     mon_fp(arg);
     snap_take(0, &m->b);
-    aws_reset_error();
+    mon_poison_last_error(&mon_case_rng);
     int rc;
     switch (v) {
         case 0:
@@ -2126,7 +2128,7 @@ static void op_split_list(struct mon_rng *r) {
     mon_fp(0x1400 + ch + (use_n ? 0x100 : 0));
     mon_fp(n);
     struct aws_byte_cursor before = c->c;
-    aws_reset_error();
+    mon_poison_last_error(&mon_case_rng);
     int rc = use_n ? aws_byte_cursor_split_on_char_n(&c->c, (char)ch, n, &list) : aws_byte_cursor_split_on_char(&c->c, (char)ch, &list);
     tr(" %s(c%d len%zu,0x%02x,n=%zu,%s%zu)=%d", s_op, ci, c->len, ch, n, is_static ? "static" : "dyn", is_static ? scap : 0, rc);
     bool exp_ok = !(is_static && nexp > scap);
@@ -2208,7 +2210,7 @@ static void op_find_exact(struct mon_rng *r) {
     s_op = "find_exact";
     mon_fp(0x1500);
     struct aws_byte_cursor out = {.len = 0xEEEE, .ptr = (uint8_t *)&out};
-    aws_reset_error();
+    mon_poison_last_error(&mon_case_rng);
     int rc = aws_byte_cursor_find_exact(&h->c, &nd->c, &out);
     tr(" find_exact(c%d len%zu,c%d len%zu)=%d", ci, h->len, cj, nd->len, rc);
     if (!outcome(s_op, found, rc == AWS_OP_SUCCESS)) {
@@ -2700,7 +2702,7 @@ static void op_file(struct mon_rng *r) {
     struct mon_alloc_stats s0, s1;
     mon_guard_stats(&s0);
     memset(&m->b, 0x5A, sizeof(m->b));
-    aws_reset_error();
+    mon_poison_last_error(&mon_case_rng);
     int rc = with_hint ? aws_byte_buf_init_from_file_with_size_hint(&m->b, a, path, hint) : aws_byte_buf_init_from_file(&m->b, a, path);
     tr(" %s(#%d,%s,size %zu,hint %zu)=%d", s_op, i, missing ? "missing" : (proc ? "/proc" : "file"), size, hint, rc);
     if (proc && rc != AWS_OP_SUCCESS) {
@@ -3014,6 +3016,112 @@ static void make_sources(struct mon_rng *r) {
     }
 }
 
+/* ------------------------------------------------------------------ buffers of 16..40 MiB (real memory)
+ * growth arithmetic that only changes above some size, on real appends: dynamic / secure / self-append */
+static uint8_t bigpat(size_t i, uint32_t salt) {
+    return (uint8_t)((i * 2654435761u + salt) >> 13);
+}
+
+static void big_append_case(uint64_t case_idx) {
+    struct mon_rng *r = &mon_case_rng;
+    struct aws_allocator *alloc = mon_chance(r, 1, 2) ? mon_guard_allocator_full() : mon_guard_allocator();
+    static const size_t CAPS[] = {(size_t)16 << 20, ((size_t)16 << 20) + 1, ((size_t)16 << 20) - 1, (size_t)20 << 20, (size_t)24 << 20, ((size_t)32 << 20) - 7, (size_t)8 << 20};
+    size_t cap = CAPS[mon_below(r, sizeof(CAPS) / sizeof(CAPS[0]))];
+    (void)case_idx;
+    s_op = "big_append";
+    mon_fp(0xB16);
+    mon_fp(cap);
+    struct aws_byte_buf b;
+    if (aws_byte_buf_init(&b, alloc, cap)) {
+        mon_violation("C01:big:init", "aws_byte_buf_init(%zu) failed", cap);
+        return;
+    }
+    /* fill level: full, 3/4 + a little, half */
+    size_t fill = mon_chance(r, 1, 2) ? cap : mon_chance(r, 1, 2) ? cap / 4 * 3 + 64 : cap / 2;
+    uint32_t salt = (uint32_t)mon_rand(r);
+    for (size_t i = 0; i < fill; ++i) {
+        b.buffer[i] = bigpat(i, salt);
+    }
+    b.len = fill;
+    for (int step = 0; step < 3; ++step) {
+        size_t old_len = b.len, old_cap = b.capacity;
+        size_t room = old_cap - old_len;
+        size_t piece;
+        switch (mon_below(r, 7)) {
+            case 0: piece = old_cap / 2 + 100; break;
+            case 1: piece = old_cap / 4 * 3; break;
+            case 2: piece = room + 1; break;
+            case 3: piece = room + old_cap / 2 + 1 + (size_t)mon_below(r, 4096); break;
+            case 4: piece = room + old_cap - 1; break;
+            case 5: piece = 1 + (size_t)mon_below(r, 4096); break;
+            default: piece = room + old_cap / 2 - (size_t)mon_below(r, 64); break;
+        }
+        if (old_len + piece > ((size_t)96 << 20)) {
+            break;
+        }
+        unsigned how = (unsigned)mon_below(r, 4);
+        uint8_t *src = NULL;
+        struct aws_byte_cursor c;
+        bool self = how == 3 && piece <= old_len;
+        if (self) {
+            c = aws_byte_cursor_from_array(b.buffer + (old_len - piece), piece); /* a cursor into the destination itself */
+        } else {
+            src = malloc(piece);
+            for (size_t i = 0; i < piece; ++i) {
+                src[i] = bigpat(old_len + i, salt);
+            }
+            c = aws_byte_cursor_from_array(src, piece);
+        }
+        int rc = (how == 1) ? aws_byte_buf_append_dynamic_secure(&b, &c) : aws_byte_buf_append_dynamic(&b, &c);
+        tr(" big_%s(cap%zu len%zu +%zu)=%d->cap%zu", how == 1 ? "append_dynamic_secure" : self ? "self_append_dynamic" : "append_dynamic", old_cap, old_len, piece, rc, b.capacity);
+        if (rc != AWS_OP_SUCCESS) {
+            mon_violation("C01:big:append-failed", "append of %zu bytes to a buffer with len %zu cap %zu failed (error %d)", piece, old_len, old_cap, aws_last_error());
+            free(src);
+            break;
+        }
+        if (b.len != old_len + piece || b.capacity < b.len) {
+            mon_violation("C01:len-gt-capacity", "dynamic append of %zu bytes to len %zu cap %zu: len is now %zu, capacity %zu", piece, old_len, old_cap, b.len, b.capacity);
+            free(src);
+            b.len = 0;
+            break;
+        }
+        size_t bad = SIZE_MAX;
+        for (size_t i = 0; i < old_len && bad == SIZE_MAX; ++i) {
+            if (b.buffer[i] != bigpat(i, salt)) {
+                bad = i;
+            }
+        }
+        for (size_t i = 0; i < piece && bad == SIZE_MAX; ++i) {
+            uint8_t want = self ? bigpat(old_len - piece + i, salt) : bigpat(old_len + i, salt);
+            if (b.buffer[old_len + i] != want) {
+                bad = old_len + i;
+            }
+        }
+        if (bad != SIZE_MAX) {
+            mon_violation("C01:contents", "after a dynamic append of %zu bytes to len %zu cap %zu (new cap %zu): byte %zu differs from what was written", piece, old_len, old_cap,
+                          b.capacity, bad);
+            free(src);
+            break;
+        }
+        if (self) {
+            /* keep the pattern consistent for the next step: rewrite the appended part */
+            for (size_t i = 0; i < piece; ++i) {
+                b.buffer[old_len + i] = bigpat(old_len + i, salt);
+            }
+        }
+        free(src);
+        mon_count("big_buffer_dynamic_appends", 1);
+        if (old_cap >= ((size_t)16 << 20) && b.capacity != old_cap) {
+            mon_flag(F_BIG_GROWTH);
+        }
+    }
+    if (mon_chance(r, 1, 2)) {
+        aws_byte_buf_clean_up_secure(&b);
+    } else {
+        aws_byte_buf_clean_up(&b);
+    }
+}
+
 static void run_case(uint64_t case_idx) {
     (void)case_idx;
     struct mon_rng *r = &mon_case_rng;
@@ -3112,7 +3220,11 @@ int main(int argc, char **argv) {
     uint64_t c;
     while (mon_next_case(&c)) {
         mon_case_begin(c);
-        run_case(c);
+        if (c % 512 == 511) {
+            big_append_case(c);
+        } else {
+            run_case(c);
+        }
         mon_case_end(mon_flag_count() >= 3);
     }
     files_remove();
